@@ -317,6 +317,22 @@ func (b *bEnv) call(n *ast.CallExpr) bVal {
 			}
 		}
 	}
+	if ok && sf.Body == nil {
+		// ghost attribute: an uninterpreted function of the identities / scalar values of its arguments
+		var ts []*Term
+		for i := range sf.Params {
+			v := b.Eval(arg(i))
+			if sc, isS := v.(bScalar); isS {
+				ts = append(ts, sc.t)
+			} else {
+				ts = append(ts, ConstI(int64(b.e.objectIdentity(b.state(), v, arg(i)))))
+			}
+		}
+		if sf.Bool {
+			return bScalar{App("ghost."+fn.Name, SBool, ts...)}
+		}
+		return bScalar{App("ghost."+fn.Name, SInt, ts...)}
+	}
 	if ok && sf.Body != nil {
 		nb := *b
 		nb.bind = map[string]bVal{}
@@ -344,6 +360,10 @@ func (e *bEngine) objectIdentity(st *bState, v bVal, x ast.Expr) int {
 		return e.reg.idFor("iface:" + a.sym)
 	case *bStruct:
 		if a.sym != "" {
+			// the contents of a named object: the object itself
+			if id, ok := e.reg.ids[a.sym]; ok {
+				return id
+			}
 			return e.reg.idFor("struct:" + a.sym)
 		}
 	}
